@@ -4,6 +4,7 @@ import (
 	"encoding/json"
 	"fmt"
 	"math/rand"
+	"reflect"
 	"strconv"
 	"strings"
 
@@ -26,7 +27,7 @@ func (c10) Meta() core.Meta {
 		Rule:        "case i = f(seed,i): JSON/XML-shaped Map over a 4-key alphabet (k present at several levels, absent at the addressed node, list as the node before the last key, list- and map-valued targets) + key k + plain/wildcard path in both addressing forms (path ends in k / k is an entry of the nodes the path yields) + 0..2 sub-key conditions (numeric ones incl. near misses of real values; separators ':' '|' ';' and the multi-byte '=>' '::' '§') + new value given as a single-entry map (string, number or map sentinel), as mxj.Map, or as a 'key:value[:type]' string (default and alternative separator). The new value is a sentinel that occurs nowhere in the Map, so the set of replaced slots is read off the result. Invariants: frame (everything but sentinel slots unchanged, nothing added or removed), soundness and completeness of the sentinel slots against the reference addressed set (three-valued sub-key predicate; for a list-valued target the condition may be read on the parent or on the members), count == number of sentinel slots, count 0 => untouched, ValuesForPath afterwards == count copies when the path ends in k without sub-keys; j2x wrapper returns the encoding of the result. Non-trivial: at least one addressed slot; distinct by hash(map,k,path,subkeys).",
 		Assumptions: []string{"reference addressed-slot set written from the property statement (DESIGN 4 C10)", "a negated typed sub-key on an absent key is unspecified"},
 		Anchors:     []string{"Map.UpdateValuesForPath", "updateValuesForKeyPath", "updateValue", "j2x.JsonUpdateValsForPath"},
-		Floors:      map[string]int64{"addressed>0": 3000, "addressed>1": 300, "shape:list-before-last-key": 200, "shape:key-absent-at-node": 500, "shape:wildcard-last": 200, "shape:list-valued-target": 100, "subkeys:some-replaced": 100, "form:string": 1000, "form:typed-num": 200},
+		Floors:      map[string]int64{"addressed>0": 3000, "addressed>1": 300, "shape:list-before-last-key": 200, "shape:key-absent-at-node": 500, "shape:wildcard-last": 200, "shape:list-valued-target": 100, "subkeys:some-replaced": 100, "form:string": 1000, "form:typed-num": 200, "alias:list-stored-twice": 1000},
 	}
 }
 
@@ -362,9 +363,91 @@ func (c10) Case(c *core.Ctx) {
 		defer ResetDefaults()
 		c.Count("ambient:decoder-options")
 	}
+	// (I6) one list object of the Map stored a second time, under a top-level key the path cannot address: that
+	// entry is "another entry of the Map". Member maps may legitimately be updated in place (they are addressed
+	// nodes), so the entry is compared shallowly: same members (same objects, equal scalars) in the same order.
+	const aliasKey = "zz-alias\x00list"
+	var aliasList, aliasSnap []interface{}
+	if path[0] != "*" && r.Intn(3) == 0 {
+		var lists [][]interface{}
+		var walk func(v interface{})
+		walk = func(v interface{}) {
+			switch t := v.(type) {
+			case map[string]interface{}:
+				for _, kk := range sortedKeys(t) {
+					walk(t[kk])
+				}
+			case []interface{}:
+				if len(t) > 0 {
+					lists = append(lists, t)
+				}
+				for _, e := range t {
+					walk(e)
+				}
+			}
+		}
+		walk(map[string]interface{}(root))
+		// half of the time: the list-valued target of an addressed slot (slots point into 'before'; find the twin in root)
+		var targets [][]interface{}
+		twin := map[uintptr]map[string]interface{}{}
+		var pair func(b, a interface{})
+		pair = func(b, a interface{}) {
+			switch bt := b.(type) {
+			case map[string]interface{}:
+				at, ok := a.(map[string]interface{})
+				if !ok {
+					return
+				}
+				twin[reflect.ValueOf(bt).Pointer()] = at
+				for kk, bv := range bt {
+					pair(bv, at[kk])
+				}
+			case []interface{}:
+				at, ok := a.([]interface{})
+				if !ok || len(at) != len(bt) {
+					return
+				}
+				for i := range bt {
+					pair(bt[i], at[i])
+				}
+			}
+		}
+		pair(map[string]interface{}(before), map[string]interface{}(root))
+		for _, sl := range slots {
+			if tm := twin[reflect.ValueOf(sl.container).Pointer()]; tm != nil {
+				if l, ok := tm[k].([]interface{}); ok && len(l) > 0 {
+					targets = append(targets, l)
+				}
+			}
+		}
+		if len(targets) > 0 && r.Intn(2) == 0 {
+			lists = targets
+			c.Count("alias:list-valued-target")
+		}
+		if len(lists) > 0 {
+			aliasList = lists[r.Intn(len(lists))]
+			aliasSnap = append([]interface{}(nil), aliasList...)
+			root[aliasKey] = aliasList
+			c.Count("alias:list-stored-twice")
+		}
+	}
 	c.Eval()
 	failedCalls(c, 8)
 	cnt, err := mxj.Map(root).UpdateValuesForPath(newVal, pathStr, specs...)
+	if aliasList != nil {
+		now, isList := root[aliasKey].([]interface{})
+		same := isList && len(now) == len(aliasSnap) && len(aliasList) == len(aliasSnap)
+		for i := 0; same && i < len(aliasSnap); i++ {
+			same = shallowSame(now[i], aliasSnap[i]) && shallowSame(aliasList[i], aliasSnap[i])
+		}
+		delete(root, aliasKey)
+		if !same {
+			c.Violate("c10-aliased-list-entry", "a list stored under a second, unaddressed key was modified by the update (members replaced in place)", core.D{
+				"before": jv.Show(before), "after": jv.Show(root), "newVal": fmt.Sprintf("%#v", newVal), "path": pathStr, "subkeys": fmt.Sprint(specs),
+				"alias_entry_before": jv.Show(aliasSnap), "alias_entry_after": jv.Show(now), "count": cnt, "err": fmt.Sprint(err)})
+			return
+		}
+	}
 	got := map[string]bool{}
 	sentinelSlots(root, "", sentFp, got)
 	det := func() core.D {
@@ -521,6 +604,26 @@ func (c10) Case(c *core.Ctx) {
 			c.Count("api:j2x.JsonUpdateValsForPath")
 		}
 	}
+}
+
+// shallowSame: the same member as before - the same map or list object, or an equal scalar.
+func shallowSame(a, b interface{}) bool {
+	switch x := a.(type) {
+	case map[string]interface{}:
+		y, ok := b.(map[string]interface{})
+		return ok && reflect.ValueOf(x).Pointer() == reflect.ValueOf(y).Pointer()
+	case mxj.Map:
+		y, ok := b.(mxj.Map)
+		return ok && reflect.ValueOf(x).Pointer() == reflect.ValueOf(y).Pointer()
+	case []interface{}:
+		y, ok := b.([]interface{})
+		return ok && len(x) == len(y) && (len(x) == 0 || &x[0] == &y[0])
+	}
+	switch b.(type) {
+	case map[string]interface{}, mxj.Map, []interface{}:
+		return false
+	}
+	return jv.Fp(a) == jv.Fp(b)
 }
 
 func slotLocs(s []slot) []string {
